@@ -50,6 +50,8 @@ func main() {
 			code = cmdVerify(repo, root, os.Args[2:])
 		case "check":
 			code = cmdCheck(repo, root, os.Args[2:])
+		case "replay":
+			code = cmdReplay(repo, root, os.Args[2:])
 		case "locals":
 			code = cmdLocals(repo, root)
 		case "witness":
